@@ -11,7 +11,10 @@ BOUND = ("networks with <= 6(7) variables (exhaustive 1-variable, sampled 2-vari
          "deep, unions, a 6-variable network with nested shortcut edges and seeded 'latch DAG' networks in which every variable is a set-/reset-latch) under depth-first histories "
          "(expand_dfs with and without limits, dfs below single children in both orders followed by a full expansion, manual depth-first node_successors sequences); depth / ids / len after EVERY call of a seeded history of <= 6 calls (all strategies, limits, skipping); find_node on every node space, on "
          "sub- and super-spaces, on seeded random spaces and on unknown variables; is_subgraph / is_isomorphic between diagrams of the same network under two "
-         "histories and of 1-variable-mutated networks (incl. unexpanded roots, D6), against set inclusion of node spaces and edges; summary() after build() parsed "
+         "histories and of 1-variable-mutated networks (incl. unexpanded roots, D6), against set inclusion of node spaces and edges, is_isomorphic in BOTH directions; the "
+         "same-nodes shape: independent bistable modules, nested switches, multi-path and latch-DAG networks (<= 8 variables) with one side only partially expanded (root plus a "
+         "subset of the nodes one by one, size- / level-limited bfs and dfs with limits 3..13, minimal-space / target / block expansion, build) against the full diagram or "
+         "another partial one, so that the node sets are equal and the edge sets differ; summary() after build() parsed "
          "and compared with the brute-force attractors and their minimal-trap / motif-avoidant classification")
 RULE = "non-trivial = the final diagram has >= 4 nodes or the network has >= 2 attractors"
 CASE_TIMEOUT = 60.0
@@ -26,6 +29,11 @@ def shape_cases(seed, tier):
         hs = families.depth_first_histories(rng)
         for h in (hs if name in families.MULTIPATH else [hs[0], hs[-1], hs[1 + k % (len(hs) - 2)]]):
             yield {"net": name, "bnet": bnet, "other": None, "h1": h, "h2": []}
+        # single-node expansions in a seeded ARBITRARY order (neither level-wise nor depth-first): a long path to an already expanded node is found in one step, so its
+        # depth grows by two or more at once while its children have other paths of intermediate length
+        for _ in range(4 if name in families.MULTIPATH else 1):
+            h = [["succ", 0]] + [["succ", rng.randint(0, 14)] for _ in range(rng.randint(5, 16))]
+            yield {"net": name, "bnet": bnet, "other": None, "h1": h + [rng.choice([["bfs", None, None, None], ["dfs", None, None, None]])], "h2": [], "summary": False}
 
 
 SAME_NODES_FIRST = [("two_switches", families.switches(2)), ("shortcut3", families.norm("A, A | C; B, A | B; C, !C"))]  # the instances that revealed the shape
@@ -68,7 +76,7 @@ def same_nodes_cases(seed, tier):
 
 
 def cases(seed, tier):
-    yield from families.interleave((same_nodes_cases(seed, tier), 1), (shape_cases(seed, tier), 1), (general_cases(seed, tier), 3))
+    yield from families.interleave((same_nodes_cases(seed, tier), 1), (shape_cases(seed, tier), 1), (general_cases(seed, tier), 4))
 
 
 def general_cases(seed, tier):
